@@ -3917,7 +3917,11 @@ public:
     //! @brief Checks if has value
     constexpr bool has_value() const noexcept
     {
-        return (val != Derived::null_value());
+        // default null value of `float`/`double` is NaN which is not equal
+        // even to itself
+        return (val != Derived::null_value())
+               && !((val != val)
+                    && (Derived::null_value() != Derived::null_value()));
     }
 
     //! @brief Checks if has value
@@ -3937,7 +3941,9 @@ public:
     constexpr friend bool
         operator==(const optional_base& lhs, const optional_base& rhs) noexcept
     {
-        return *lhs == *rhs;
+        return (lhs.has_value() && rhs.has_value())
+                   ? (*lhs == *rhs)
+                   : (lhs.has_value() == rhs.has_value());
     }
 
 #ifdef SBEPP_DOXYGEN
@@ -3963,7 +3969,7 @@ public:
     constexpr friend bool
         operator!=(const optional_base& lhs, const optional_base& rhs) noexcept
     {
-        return *lhs != *rhs;
+        return !(lhs == rhs);
     }
 
     //! @brief Tests if `lhs` is less than `rhs`
